@@ -27,6 +27,7 @@ def block_obligations(r, tier, prefix=''):
     for rd in range(1, 11):
         r_add(Ob('T3-keystep-round%d' % rd, 'h_c09.c', [u], defines=['H_KEYSTEP', 'ROUND=%d' % rd], unwind=180, timeout=T))
     r_add(Ob('T3-key-skeleton', 'h_c09.c', [ukuf], defines=['H_KEYSKEL'], unwind=180, timeout=T, replay_units=[u]))
+    r_add(Ob('T3-key-skeleton-after-another-key', 'h_c09.c', [ukuf], defines=['H_KEYSKEL', 'HISTORY'], unwind=180, timeout=T, replay_units=[u], note='two arbitrary keys expanded one after the other: no state carried over'))
     r_add(Ob('T4-compose-enc', 'h_c09.c', [uuf], defines=['H_COMPOSE'], unwind=180, timeout=T, replay_units=[u]))
     r_add(Ob('T4-compose-dec', 'h_c09.c', [uuf], defines=['H_COMPOSE', 'DEC'], unwind=180, timeout=T, replay_units=[u]))
 
